@@ -51,7 +51,7 @@ func main() {
 	defer bw.Flush()
 	enc := json.NewEncoder(bw)
 	db, _ := badger.Open(badger.DefaultOptions("").WithInMemory(true).WithLogger(nil))
-	maxP := 16
+	maxP := 67
 	nodes := make([]*sim.Node, maxP)
 	for i := range nodes {
 		nodes[i] = sim.NewNode(uint64(10 + i))
@@ -73,7 +73,7 @@ func main() {
 		rng.Read(u[:])
 		ids = append(ids, u)
 	}
-	for _, np := range []int{1, 2, 3, 7, 16} {
+	for _, np := range []int{1, 2, 3, 7, 16, 64, 67} {
 		enc.Encode(event{Ev: "dataset", Np: np})
 		meta := pb.Dataset{Id: uuid.NewV4().Bytes(), Dimension: 2, Space: pb.Space_Euclidean, ReplicationFactor: 1, PartitionCount: uint32(np)}
 		pids := make([]uuid.UUID, np)
